@@ -2,6 +2,7 @@ package types
 
 import (
 	"fmt"
+	"unicode/utf8"
 
 	sdk "github.com/cosmos/cosmos-sdk/types"
 	"github.com/tendermint/tendermint/crypto"
@@ -25,6 +26,10 @@ const (
 func (subdistributor SubDistributor) Validate() error {
 	if subdistributor.Name == "" {
 		return fmt.Errorf("subdistributor name cannot be empty")
+	}
+	if !utf8.ValidString(subdistributor.Name) {
+		// genesis export is JSON: a name that is not valid UTF-8 would come back as a different name after an import
+		return fmt.Errorf("subdistributor name is not valid UTF-8")
 	}
 	if err := subdistributor.Destinations.Validate(subdistributor.GetPrimaryShareName()); err != nil {
 		return fmt.Errorf("subdistributor %s destinations validation error: %w", subdistributor.Name, err)
@@ -90,6 +95,9 @@ func (destinationShare *DestinationShare) validate(primaryShareName string) erro
 	if destinationShare.Name == "" {
 		return fmt.Errorf("destination share name cannot be empty")
 	}
+	if !utf8.ValidString(destinationShare.Name) {
+		return fmt.Errorf("destination share name is not valid UTF-8")
+	}
 	if destinationShare.Name == primaryShareName {
 		return fmt.Errorf("destination share name: %s is reserved for primary share", destinationShare.Name)
 	}
@@ -112,6 +120,9 @@ func (account Account) Validate() error {
 	case InternalAccount:
 		if account.Id == "" {
 			return fmt.Errorf("internal account id cannot be empty")
+		}
+		if !utf8.ValidString(account.Id) {
+			return fmt.Errorf("internal account id is not valid UTF-8")
 		}
 	case BaseAccount:
 		address, err := sdk.AccAddressFromBech32(account.Id)
